@@ -85,6 +85,25 @@ def rand_dist(rng, m, den=60, zeros=False):
             return [Fraction(x, s) for x in w]
 
 
+def lay(a, layout):
+    """the same numbers in another memory layout: "c" C-contiguous, "f" Fortran order, "view" a strided view into a larger buffer,
+    "neg" a view with negative strides, "list" (1-d only) a plain Python list where the API documents a list / accepts sequences"""
+    a = np.asarray(a)
+    if layout in (None, "c"):
+        return np.ascontiguousarray(a)
+    if layout == "f":
+        return np.asfortranarray(a)
+    if layout == "view":
+        big = np.full(tuple(2 * n + 1 for n in a.shape), 7.25, dtype=a.dtype)
+        sl = tuple(slice(1, None, 2) for _ in a.shape)
+        big[sl] = a
+        return big[sl]
+    if layout == "neg":
+        rev = tuple(slice(None, None, -1) for _ in a.shape)
+        return a[rev].copy()[rev]
+    raise ValueError(layout)
+
+
 def chk_helpers(ctx, case):
     from quara.utils import matrix_util as mu
     from quara.data_analysis import data_analysis as da
@@ -104,7 +123,7 @@ def chk_helpers(ctx, case):
     if kind == "cov_mat":
         q = [fr(x) for x in case["q"]]; n = case["n"]
         mod = fl(m.call("c19.cov_mat", [len(q)], [n] + q))
-        qa = np.array(fl(q))
+        qa = lay(np.array(fl(q)), case.get("layout"))
         got = mu.calc_covariance_mat(qa, n)
         got2 = da.calc_covariance_matrix_of_prob_dist(qa, n)
         ctx.count("helpers", key=("cov", tuple(case["q"]), n), label="cov_mat", nontrivial=len(q) >= 2)
@@ -134,7 +153,7 @@ def chk_helpers(ctx, case):
         if not close_arr(got, mod, 1e-12):
             bad("value", "total covariance differs from model: %s vs %s" % (np.asarray(got).tolist(), mod))
     elif kind == "direct_sum":
-        blocks = [np.array([[float(fr(x)) for x in row] for row in b]) for b in case["blocks"]]
+        blocks = [lay(np.array([[float(fr(x)) for x in row] for row in b]), case.get("layout")) for b in case["blocks"]]
         zs = [len(blocks)] + [b.shape[0] for b in blocks]
         qs = [x for b in blocks for x in rflat(b)]
         mod = fl(m.call("c19.direct_sum", zs, qs))
@@ -151,7 +170,7 @@ def chk_helpers(ctx, case):
             ctx.violation("helpers", site, "accepts-" + case["why"], "calc_direct_sum accepted %s input (shapes %s) and returned %s; documented: ValueError" % (
                 case["why"], [a.shape for a in arrs], np.asarray(val).tolist() if st == "ok" else val), case)
     elif kind == "conjugate":
-        X = np.array([[float(fr(x)) for x in row] for row in case["X"]]); V = np.array([[float(fr(x)) for x in row] for row in case["V"]])
+        X = lay(np.array([[float(fr(x)) for x in row] for row in case["X"]]), case.get("layout")); V = lay(np.array([[float(fr(x)) for x in row] for row in case["V"]]), case.get("layout"))
         mod = fl(m.call("c19.conjugate", [X.shape[0], X.shape[1]], rflat(X) + rflat(V)))
         got = mu.calc_conjugate(X, V)
         ctx.count("helpers", key=("conj", repr(case["X"]), repr(case["V"])), label="conjugate", nontrivial=X.shape[0] != X.shape[1])
@@ -177,7 +196,9 @@ def chk_helpers(ctx, case):
         eps_m = EPS8 if eps is None else eps
         items = []
         for it in case["items"]:
-            p = np.array([float(fr(x)) for x in it["p"]]); G = [np.array([float(fr(x)) for x in row]) for row in it["G"]]
+            p = lay(np.array([float(fr(x)) for x in it["p"]]), case.get("layout"))
+            Gm = lay(np.array([[float(fr(x)) for x in row] for row in it["G"]]), case.get("layout")) if it["G"] and len(set(len(r) for r in it["G"])) == 1 else None
+            G = [Gm[i_] for i_ in range(Gm.shape[0])] if Gm is not None else [np.array([float(fr(x)) for x in row]) for row in it["G"]]   # rows = views into the laid-out matrix
             items.append((float(fr(it.get("w", "1"))), p, G))
         nv = len(items[0][2][0])
         band = (any(abs(x - eps_m) < 1e-6 * abs(eps_m) for _, p, _ in items for x in p) or any(
@@ -250,7 +271,7 @@ def chk_helpers(ctx, case):
             a = np.array([complex(float(fr(re_)), float(fr(im_))) for re_, im_ in v])
             if case["real_dtype"]:
                 a = a.real.copy()
-            return a.reshape(case["shape"])
+            return lay(a.reshape(case["shape"]), case.get("layout"))
         reps_x = [[arr(v) for v in xs] for xs in case["xs_list"]]; reps_y = [[arr(v) for v in ys] for ys in case["ys_list"]]
         ln = int(np.prod(case["shape"]))
         ses = []
@@ -324,16 +345,30 @@ def chk_helpers(ctx, case):
         mk = (lambda: S.make_state(c, S.rand_density(rnd, c.dim), True)) if case["obj"] == "state" else (
             lambda: S.make_povm(c, S.rand_povm_ops(rnd, c.dim, 3), True))
         xs = [mk() for _ in range(case["R"])]
-        ys = [mk()] * case["R"] if case["same_truth"] else [mk() for _ in range(case["R"])]
+        # ys: "same" = one true object repeated (how quara's simulation calls it), "distinct" = pairwise DIFFERENT references
+        # (then a shared reference vector is wrong), "distinct-copies" = different objects, other list length than xs (zip semantics)
+        if case["ys"] == "same":
+            ys = [mk()] * case["R"]
+        else:
+            ys = [mk() for _ in range(case["Ry"])]
+            vecs = [tuple(np.asarray(y.to_stacked_vector(), dtype=float).round(9)) for y in ys] + [tuple(np.asarray(x.to_stacked_vector(), dtype=float).round(9)) for x in xs]
+            assert len(set(vecs)) == len(vecs), "generator must produce pairwise different objects"
         ses = []
         for x, y in zip(xs, ys):
             xv = list(np.asarray(x.to_stacked_vector(), dtype=float)); yv = list(np.asarray(y.to_stacked_vector(), dtype=float))
             ses.append(m.call("c19.se", [1, len(xv)], xv + yv)[0])
-        mean_m, var_m = fl(m.call("c19.mean_var", [], ses))
-        mse, std = da.calc_mse_qoperations(xs, ys, mode="qoperation", with_std=True)
+        mean_m, var_m = fl(m.call("c19.mean_var", [], ses)) if len(ses) >= 2 else (float(ses[0]), 0.0)
         mse2 = da.calc_mse_qoperations(xs, ys, mode="qoperation", with_std=False)
-        ctx.count("helpers", key=("mq", case["seed"], case["obj"], case["R"]), label="mse_qoperations-" + case["obj"], nontrivial=case["R"] >= 3)
-        if not flow.close(float(mse), mean_m, 1e-12) or not flow.close(float(std) ** 2, var_m, 1e-10) or not flow.close(float(mse2), mean_m, 1e-12):
+        if len(ses) >= 2:
+            mse, std = da.calc_mse_qoperations(xs, ys, mode="qoperation", with_std=True)
+            mse_d, std_d = da.calc_mse_qoperations(xs, ys)                 # defaults: mode="qoperation", with_std=True
+        else:
+            mse, std, mse_d, std_d = mse2, 0.0, mse2, 0.0                  # std(ddof=1) of one value is nan by definition
+        ctx.count("helpers", key=("mq", case["seed"], case["obj"], case["R"], case["ys"], case.get("Ry")),
+                  label="mse_qoperations-%s-ys-%s-len%d%s" % (case["obj"], case["ys"], len(ses), "" if case.get("Ry", case["R"]) == case["R"] else "-unequal-lists"),
+                  nontrivial=case["ys"] != "same" and len(ses) >= 2)
+        if (not flow.close(float(mse), mean_m, 1e-12) or not flow.close(float(std) ** 2, var_m, 1e-10) or not flow.close(float(mse2), mean_m, 1e-12)
+                or not flow.close(float(mse_d), mean_m, 1e-12) or not flow.close(float(std_d) ** 2, var_m, 1e-10)):
             bad("value", "calc_mse_qoperations=(%s,%s) / %s, model mean %s variance %s of the squared distances of the stacked vectors" % (mse, std, mse2, mean_m, var_m))
         st, val = impl_call(da.calc_mse_qoperations, xs, ys, mode="nonsense")
         if not (st == "err" and val == "ValueError"):
@@ -365,10 +400,10 @@ def gen_helpers(ctx):
     for _ in range(k):
         mm_ = rng.randint(2, 5)
         cases.append({"kind": "cov_mat", "q": [frs(x) for x in rand_dist(rng, mm_, zeros=rng.random() < 0.3)], "n": rng.choice([1, 2, 3, 7, 10, 100, 1000])})
-    for _ in range(k):
-        J = rng.randint(1, 4)
-        dists = [([frs(x) for x in rand_dist(rng, rng.randint(2, 4), zeros=rng.random() < 0.2)], rng.choice([1, 2, 5, 10, 33, 100])) for _ in range(J)]
-        cases.append({"kind": rng.choice(["cov_total", "cov_total", "da_cov"]), "dists": dists})
+    for i in range(k):
+        J = 1 + i % 4
+        dists = [([frs(x) for x in rand_dist(rng, 2 + (i + jj) % 3, zeros=rng.random() < 0.2)], rng.choice([1, 2, 5, 10, 33, 100])) for jj in range(J)]
+        cases.append({"kind": "da_cov" if i % 3 == 2 else "cov_total", "dists": dists})
     for _ in range(k):
         J = rng.randint(1, 4)
         blocks = []
@@ -407,12 +442,15 @@ def gen_helpers(ctx):
             cases.append({"kind": "replace", "p": [frs(x) for x in pq], "eps": frs(epsq), "exact": True})
             Gq = [[rq(rng, -5, 5, (1, 2, 4)) for _ in range(2)] for _ in range(mm_)]
             cases.append({"kind": "fisher", "items": [{"p": [frs(x) for x in pq], "G": Gq}], "eps": frs(epsq), "exact": True})
-    for _ in range(k):
-        J = 1 if rng.random() < 0.5 else rng.randint(2, 3)
-        mm_ = rng.randint(2, 4); nv = rng.randint(1, 4)
+    for i in range(k):
+        J = (1, 2, 1, 3)[i % 4]
+        mm_ = 2 + i % 3; nv = 1 + (i // 3) % 4
         items = []
-        for _ in range(J):
-            p = rand_dist(rng, mm_, zeros=rng.random() < 0.35)
+        for jj in range(J):
+            p = rand_dist(rng, mm_, zeros=False)
+            if (i + jj) % 3 == 0:            # deterministically: every third distribution has an exact zero (eps-replacement branch)
+                z = rng.randrange(mm_); rest = sum(p) - p[z]
+                p = [Fraction(0) if x_ == z else p[x_] / rest for x_ in range(mm_)]
             G = [[rq(rng, -5, 5) for _ in range(nv)] for _ in range(mm_)]
             items.append({"p": [frs(x) for x in p], "G": G, "w": frs(Fraction(rng.randint(0, 8), rng.choice([1, 2, 4])))})
         cases.append({"kind": "fisher" if J == 1 else "fisher_total", "items": items, "eps": rng.choice([None, None, "1/1000", "1/50"])})
@@ -429,11 +467,11 @@ def gen_helpers(ctx):
     for _ in range(k):
         K = rng.randint(1, 4); ln = rng.randint(1, 4)
         cases.append({"kind": "se", "xs": [[rq(rng) for _ in range(ln)] for _ in range(K)], "ys": [[rq(rng) for _ in range(ln)] for _ in range(K)]})
-    for i in range(max(6, k // 2)):
-        shape = rng.choice([[2], [3], [2, 2], [3, 3], [2, 3]]); ln = shape[0] * (shape[1] if len(shape) == 2 else 1)
-        R = rng.randint(1, 4); K = rng.randint(1, 3)
+    for i in range(max(10, k // 2)):
+        shape = [[2, 2], [3], [2, 3], [2], [3, 3]][i % 5]; ln = shape[0] * (shape[1] if len(shape) == 2 else 1)
+        R = 1 + i % 4; K = 1 + (i // 2) % 3
         cz = lambda: [[rq(rng, -6, 6, (1, 2, 4)), rq(rng, -6, 6, (1, 2, 4))] for _ in range(ln)]
-        cases.append({"kind": "se_c", "shape": shape, "real_dtype": i % 3 == 2,
+        cases.append({"kind": "se_c", "shape": shape, "real_dtype": i % 4 == 3,
                       "xs_list": [[cz() for _ in range(K)] for _ in range(R)], "ys_list": [[cz() for _ in range(K)] for _ in range(R)]})
     for _ in range(max(4, k // 2)):
         R = rng.randint(2, 5); K = rng.randint(1, 3); ln = rng.randint(2, 3)
@@ -445,11 +483,24 @@ def gen_helpers(ctx):
             mm_ = rng.randint(2, 4); nvv = rng.randint(1, 3)
             cases.append({"kind": "near", "fn": fn, "p": [frs(x) for x in rand_dist(rng, mm_)], "dir": [rng.randint(-4, 4) for _ in range(mm_ - 1)] + [5],
                           "G": [[rq(rng, -5, 5) for _ in range(nvv)] for _ in range(mm_)], "n": rng.choice([1, 3, 10, 100]), "delta": dl})
-    for _ in range(max(4, k // 3)):
-        cases.append({"kind": "mse_qops", "obj": rng.choice(["state", "povm"]), "R": rng.randint(2, 6), "same_truth": rng.random() < 0.6, "seed": rng.randrange(1 << 30)})
+    # calc_mse_qoperations: a FIXED grid (no categorical feature is left to chance): both object types x list lengths 1, 2, 3, 5 x
+    # pairwise different references; plus one repeated reference and lists of unequal length per object type
+    for obj in ("state", "povm"):
+        for R in (1, 2, 3, 5) if ctx.quick else (1, 2, 3, 4, 5, 8):
+            cases.append({"kind": "mse_qops", "obj": obj, "R": R, "Ry": R, "ys": "distinct", "seed": rng.randrange(1 << 30)})
+        cases.append({"kind": "mse_qops", "obj": obj, "R": 4, "Ry": 4, "ys": "same", "seed": rng.randrange(1 << 30)})
+        cases.append({"kind": "mse_qops", "obj": obj, "R": 5, "Ry": 3, "ys": "distinct", "seed": rng.randrange(1 << 30)})
+        cases.append({"kind": "mse_qops", "obj": obj, "R": 2, "Ry": 4, "ys": "distinct", "seed": rng.randrange(1 << 30)})
     for _ in range(max(4, k // 2)):
         K = rng.randint(1, 5); ln = rng.randint(1, 4)
         cases.append({"kind": "general_norm", "xs": [[rq(rng) for _ in range(ln)] for _ in range(K)], "y": [rq(rng) for _ in range(ln)]})
+    # memory layout of the array arguments (C / Fortran order, strided view, negative strides): cycled deterministically
+    lays = ["c", "f", "view", "neg"]
+    cnt = {}
+    for c_ in cases:
+        if c_["kind"] in ("cov_mat", "direct_sum", "conjugate", "fisher", "fisher_total", "se_c"):
+            i_ = cnt.get(c_["kind"], 0); cnt[c_["kind"]] = i_ + 1
+            c_["layout"] = lays[i_ % 4]
     return cases
 
 
@@ -732,6 +783,7 @@ SETUPS_QUICK = [
     ("povmt", "qutrit", 2, ["typical"], None),
     ("qpt", "qubit", 0, ["typical"], ["typical"]),
     ("qpt", "qubit", 0, ["random", 31, 4], ["random", 32, 2, 3]),
+    ("qst", "2qubit", 0, None, ["random", 18, 6, 4]),   # two qubits (d^2 = 16, 15 variables), six random 4-outcome testers
     ("qmpt", "qubit", 2, ["typical"], ["typical"]),
     ("qmpt", "qubit", 3, ["typical"], ["typical"]),      # 3 outcomes: two full HS blocks contribute to the implied first row
     # tester POVMs with DIFFERENT numbers of outcomes (schedules of unequal length)
@@ -740,6 +792,7 @@ SETUPS_QUICK = [
     ("qpt", "qubit", 0, ["typical"], ["mixed", 35, [2, 3]]),
 ]
 SETUPS_MORE = [
+    ("povmt", "2qubit", 2, ["random", 23, 18], None),    # two qubits, 2-outcome POVM, 18 random tester states
     ("qst", "qutrit", 0, None, ["mixed", 17, [4, 3, 5, 3]]),
     ("qpt", "qubit", 0, ["random", 36, 4], ["mixed", 37, [4, 2]]),
     ("qmpt", "qubit", 2, ["typical"], ["mixed", 45, [2, 3]]),
@@ -1108,8 +1161,77 @@ def sub_history(ctx):
     ctx.run_cases("history", chk_history, cases)
 
 
-SUBS = [("helpers", sub_helpers), ("expect", sub_expect), ("tomo", sub_tomo), ("object_err", sub_object_err), ("mixed", sub_mixed), ("history", sub_history)]
-FNS = {"helpers": chk_helpers, "expect": chk_expect, "tomo": chk_tomo, "object_err": chk_object_err, "mixed": chk_mixed, "history": chk_history}
+# ====================================================================== large setups, float only (no exact model): qutrit QMPT, two qubits
+def chk_big(ctx, case):
+    """setups too large for exact rational evaluation: the analytical values are compared, in floating point, with quantities built
+    from INDEPENDENT ingredients: Sigma = direct sum of (diag p - pp^T)/n from p = A v + b, L = numpy pinv(A), V = L Sigma L^T, and the
+    Jacobian J of quara's own var -> stacked object map (convert_var_to_qoperation, probed column by column): var mode = tr V,
+    qoperation mode = tr(J V J^T) (theorem C19_mse_linear_exact with M = J L)."""
+    t, d2 = setup_of(case)
+    kind = case["type"]; eq = case["eq"]; mo = case.get("mo", 0)
+    cls = type(t).__name__
+    truth = S.build_truth(kind, case["sys"], eq, mo, case["truth"])
+    A = np.asarray(t.calc_matA(), dtype=float); b = np.asarray(t.calc_vecB(), dtype=float)
+    nr, nv = A.shape
+    v = np.asarray(truth.to_var() if eq else truth.to_stacked_vector(), dtype=float)
+    ns = case["ns"]; ms = sizes_of(t)
+    p = A @ v + b
+    if float(np.min(p)) < -1e-9:       # (exact zeros are fine here: no threshold decision enters a float comparison at 1e-8)
+        ctx.count("big", key=repr(case), label="%s-%s-negative-probability-skipped" % (kind, case["sys"]), nontrivial=False)
+        return
+    p = np.where(p < 1e-13, 0.0, p)
+    Sigma = np.zeros((nr, nr)); off = 0
+    for j, mj in enumerate(ms):
+        pj = p[off:off + mj]
+        Sigma[off:off + mj, off:off + mj] = (np.diag(pj) - np.outer(pj, pj)) / ns[j]; off += mj
+    L = np.linalg.pinv(A)
+    V = L @ Sigma @ L.T
+    with warnings.catch_warnings():
+        warnings.simplefilter("ignore")
+        s0 = np.asarray(t.convert_var_to_qoperation(v).to_stacked_vector(), dtype=float)
+        cols = []
+        for i in range(nv):
+            e = v.copy(); e[i] += 1.0
+            cols.append(np.asarray(t.convert_var_to_qoperation(e).to_stacked_vector(), dtype=float) - s0)
+        Jm = np.array(cols).T
+        got_var = float(t.calc_mse_linear_analytical(truth, ns, mode="var"))
+        got_qop = float(t.calc_mse_linear_analytical(truth, ns, mode="qoperation"))
+        got_cov = np.asarray(t.calc_covariance_mat_total(truth, ns), dtype=float)
+    ctx.count("big", key=repr(case), label="%s-%s-%s-nv%d-nr%d" % (kind, case["sys"], "eq" if eq else "free", nv, nr), nontrivial=True)
+    if not close_arr(s0, np.asarray(truth.to_stacked_vector(), dtype=float), 1e-9):
+        ctx.violation("big", cls + ".convert_var_to_qoperation", "round-trip", "convert_var_to_qoperation(var of the truth) is not the truth", case)
+        return
+    if not close_arr(got_cov, Sigma, 1e-10):
+        ctx.violation("big", cls + ".calc_covariance_mat_total", "not-block-diagonal-multinomial", "total covariance is not the direct sum of (diag p - pp^T)/n", case)
+    ev = float(np.trace(V)); eo = float(np.trace(Jm @ V @ Jm.T))
+    if not flow.close(got_var, ev, 1e-8):
+        ctx.violation("big", cls + ".calc_mse_linear_analytical", "not-exact-expectation-var", "mode=var: %.12g, tr(L Sigma L^T) = %.12g" % (got_var, ev), case)
+    if not flow.close(got_qop, eo, 1e-8):
+        ctx.violation("big", cls + ".calc_mse_linear_analytical", "not-exact-expectation-qoperation",
+                      "mode=qoperation on_para_eq_constraint=%s: analytical %.12g, tr(J L Sigma L^T J^T) with J the Jacobian of var -> stacked object %.12g (ratio %.6f)" % (eq, got_qop, eo, got_qop / eo if eo else float("nan")), case)
+
+
+BIG_QUICK = [("povmt", "qutrit", 3, ["typical"], None), ("qpt", "qubit", 0, ["typical"], ["typical"])]
+BIG_MORE = [("qmpt", "qutrit", 2, ["typical"], ["typical"]), ("qst", "2qubit", 0, None, ["random", 19, 8, 3]), ("povmt", "2qubit", 3, ["random", 24, 20], None),
+            ("qmpt", "qubit", 4, ["typical"], ["typical"])]
+
+
+def sub_big(ctx):
+    rng = ctx.rng
+    cases = []
+    for (kind, sysn, mo, ts, tp) in (BIG_QUICK if ctx.quick else BIG_QUICK + BIG_MORE):
+        for eq in (True, False):
+            if kind == "qmpt" and sysn == "qutrit" and not eq:
+                continue
+            t = S.build_tomo(kind, sysn, eq, ts, tp, mo)
+            cases.append({"type": kind, "sys": sysn, "eq": eq, "mo": mo, "tst_states": ts, "tst_povms": tp,
+                          "truth": ["random", rng.randrange(1 << 30)], "ns": rand_ns(rng, t.num_schedules)})
+    ctx.sample("big", cases[0])
+    ctx.run_cases("big", chk_big, cases)
+
+
+SUBS = [("helpers", sub_helpers), ("expect", sub_expect), ("tomo", sub_tomo), ("object_err", sub_object_err), ("mixed", sub_mixed), ("history", sub_history), ("big", sub_big)]
+FNS = {"helpers": chk_helpers, "expect": chk_expect, "tomo": chk_tomo, "object_err": chk_object_err, "mixed": chk_mixed, "history": chk_history, "big": chk_big}
 
 
 # ====================================================================== translator tie
